@@ -11,8 +11,8 @@ CHECK = {
            're-entered by replaying its shortest history on a fresh table; distinct_nontrivial = states in which at least one entry '
            'is displaced from its home slot; ladders cover size classes 23..197 with enumerated insertion/removal orders'),
   'bounds': {
-    'quick': 'Int keys: 7-key universe to fixpoint (gcc) and 5-key (ASan+UBSan); String keys: 5-key universe; Probe values 5 keys; ladders to 120 keys x 8 strides x 16 order pairs',
-    'thorough': 'Int keys: 9-key universe to fixpoint, 7-key under ASan; String keys 7; ladders to 220 keys',
+    'quick': 'Int keys: 6-key universe to fixpoint (gcc) and 5-key (ASan+UBSan); String keys: 5-key universe; Probe values 5 keys; ladders to 120 keys x 8 strides x 16 order pairs',
+    'thorough': 'Int keys: 8-key universe (global deadline 14 min; the evidence says whether the fixpoint was reached), 7-key under ASan; String keys 7; ladders to 220 keys',
   },
   'assumptions': [
     'values outside the key universe are represented by the universe (keys are chosen to collide; behaviour depends on keys only through hash and eq)',
@@ -21,7 +21,7 @@ CHECK = {
   ],
   'instances': {
     'quick': [
-      T('int7', 'base', 'keys=int', 'nkeys=7'),
+      T('int6', 'base', 'keys=int', 'nkeys=6'),
       T('int5-asan', 'asan', 'keys=int', 'nkeys=5'),
       T('str5', 'base', 'keys=str', 'nkeys=5'),
       T('str4-asan', 'asan', 'keys=str', 'nkeys=4'),
@@ -30,7 +30,7 @@ CHECK = {
       T('ladder-asan', 'asan', 'mode=ladder', 'ladder_n=60'),
     ],
     'thorough': [
-      T('int9', 'base', 'keys=int', 'nkeys=9'),
+      T('int8', 'base', 'keys=int', 'nkeys=8', 'deadline=840'),
       T('int7-asan', 'asan', 'keys=int', 'nkeys=7'),
       T('str7', 'base', 'keys=str', 'nkeys=7'),
       T('str5-asan', 'asan', 'keys=str', 'nkeys=5'),
